@@ -968,6 +968,13 @@ func (f *nilFn) stmt(s ast.Stmt, st nstate) (nstate, bool) {
 				body[k] = true
 			}
 		}
+		// a loop over the keys collected from a map (keys = append(keys, k) inside `for k := range M`, possibly
+		// sorted): the body runs only when M has an entry, so M is not nil there
+		if m := f.keysCollectedFrom(x.X); m != nil {
+			if k := f.key(m); k != "" {
+				body[k] = true
+			}
+		}
 		f.stmts(x.Body.List, body)
 		return head, false
 	case *ast.SwitchStmt:
@@ -1261,4 +1268,51 @@ func (f *nilFn) checkReqNamed(arg ast.Expr, r nilReq, st nstate, pos token.Pos, 
 	}
 	f.e.viols[f.fi.QName()+"/"+exprStr(arg)+r.rel+"/"+calleeName] = nilViol{fn: f.fi, pos: pos,
 		what: fmt.Sprintf("%s may be nil here (optional part of the document model) and is not tested on this path: %s", exprStr(arg)+r.rel, what), origin: r.origin}
+}
+
+// keysCollectedFrom: the ranged expression is a local slice every append to which happens in the body of a range
+// over one and the same map, appending that loop's key; returns the map expression.
+func (f *nilFn) keysCollectedFrom(e ast.Expr) ast.Expr {
+	o := core.ObjOf(f.info, e)
+	if o == nil || !core.IsSlice(o.Type()) {
+		return nil
+	}
+	if _, isParam := f.params[o]; isParam {
+		return nil
+	}
+	pm := f.e.c.parents(f.fi)
+	var from ast.Expr
+	ok := true
+	n := 0
+	for _, d := range f.e.c.P.Locals(f.fi).Defs[o] {
+		if d.Kind == core.DefZero {
+			continue
+		}
+		if d.Kind != core.DefAssign || d.Expr == nil {
+			return nil
+		}
+		call, isCall := core.Unparen(d.Expr).(*ast.CallExpr)
+		if !isCall {
+			return nil
+		}
+		if isBuiltin(f.info, call, "make") {
+			continue
+		}
+		if !isBuiltin(f.info, call, "append") || len(call.Args) != 2 || core.ObjOf(f.info, call.Args[0]) != o {
+			return nil
+		}
+		rs, _ := pm.Enclosing(call, func(n ast.Node) bool { _, y := n.(*ast.RangeStmt); return y }).(*ast.RangeStmt)
+		if rs == nil || rs.Key == nil || !core.IsMap(f.info.TypeOf(rs.X)) || core.ObjOf(f.info, call.Args[1]) != core.ObjOf(f.info, rs.Key) {
+			return nil
+		}
+		if from != nil && !sameExpr(from, rs.X) {
+			ok = false
+		}
+		from = rs.X
+		n++
+	}
+	if !ok || n == 0 {
+		return nil
+	}
+	return from
 }
